@@ -17,4 +17,8 @@ structure KwShape where
   axis : Axis
   deriving Repr, DecidableEq, Inhabited
 
+/-- the `multiprocessing.Pool` mapping methods. -/
+inductive PoolMethod where | imap | map | imapUnordered
+  deriving Repr, DecidableEq, Inhabited
+
 end Bycycle
